@@ -45,7 +45,7 @@ package mkvs
 //@   loop 1 invariant db.GBatchCommits == old(db.GBatchCommits) && db.GBatchCommitsOK == old(db.GBatchCommitsOK)
 //@   loop 2 invariant db.GBatchCommits == old(db.GBatchCommits) && db.GBatchCommitsOK == old(db.GBatchCommitsOK)
 //@   loop 2 invariant len(log) == len(logAnns)
-//@   loop 2 invariant forall k string :: visited(k) && t.pendingWriteLog[k] != nil && (t.pendingWriteLog[k].value != nil || t.pendingWriteLog[k].existed) ==> (exists j int :: 0 <= j && j < len(log) && bytesId(log[j].Key) == bytesId(t.pendingWriteLog[k].key) && (log[j].Value == nil) == (t.pendingWriteLog[k].value == nil))
+//@   loop 2 invariant forall k string :: visited(k) && t.pendingWriteLog[k] != nil && (t.pendingWriteLog[k].value != nil || t.pendingWriteLog[k].existed) ==> (exists j int :: 0 <= j && j < len(log) && sameRef(arrOf(log[j].Key), arrOf(t.pendingWriteLog[k].key)) && sameRef(arrOf(log[j].Value), arrOf(t.pendingWriteLog[k].value)))
 //@   precall db/api\.Batch\)\.PutWriteLog$ :: len(log) == len(logAnns) && argIs(0, log) && argIs(1, logAnns)
 //@   note write log handed to the database: every pending entry that ends with a value, or ends removed but existed before, has a log entry with its key (a deletion iff it ends removed); only entries that never existed and end removed are dropped
 //@   note the batch holding the new nodes, the write log and the root is committed at most once, with the hash doCommit computed, and only after the caller's pre-commit hook accepted that hash; on every error return no batch commit succeeded
